@@ -632,27 +632,35 @@ Section Level.
       (* the increment, then the next pass *)
       assert (Hinc : rbind (blk (prog_of inc) c2)
                        (fun r2 => match fst r2 with
-                                  | Normal => for_sem ML (funs_of ft) blk left (oexpr_of cnd) (prog_of inc) (prog_of body) line (snd r2)
-                                  | sg0 => Fin (sg0, snd r2)
+                                  | Brk => Fin (Normal, snd r2)
+                                  | Ret => Fin (Ret, snd r2)
+                                  | Normal | Cont => for_sem ML (funs_of ft) blk left (oexpr_of cnd) (prog_of inc) (prog_of body) line (snd r2)
                                   end) <> Stuck ->
-              (do st3 <- ec inc (Ok (emb ft m c2)); for_loop ec (S n') cnd inc body line (counter + 1) st3)
+              (do st3 <- ec inc (Ok (emb ft m c2));
+               if st_flag st3 =? 1 then Ok (st_set_flag st3 0)
+               else if st_flag st3 =? 2 then for_loop ec (S n') cnd inc body line (counter + 1) (st_set_flag st3 0)
+               else for_loop ec (S n') cnd inc body line (counter + 1) st3)
               = out_state ft m (rbind (blk (prog_of inc) c2)
                        (fun r2 => match fst r2 with
-                                  | Normal => for_sem ML (funs_of ft) blk left (oexpr_of cnd) (prog_of inc) (prog_of body) line (snd r2)
-                                  | sg0 => Fin (sg0, snd r2)
+                                  | Brk => Fin (Normal, snd r2)
+                                  | Ret => Fin (Ret, snd r2)
+                                  | Normal | Cont => for_sem ML (funs_of ft) blk left (oexpr_of cnd) (prog_of inc) (prog_of body) line (snd r2)
                                   end))
               /\ wf_out (rbind (blk (prog_of inc) c2)
                        (fun r2 => match fst r2 with
-                                  | Normal => for_sem ML (funs_of ft) blk left (oexpr_of cnd) (prog_of inc) (prog_of body) line (snd r2)
-                                  | sg0 => Fin (sg0, snd r2)
+                                  | Brk => Fin (Normal, snd r2)
+                                  | Ret => Fin (Ret, snd r2)
+                                  | Normal | Cont => for_sem ML (funs_of ft) blk left (oexpr_of cnd) (prog_of inc) (prog_of body) line (snd r2)
                                   end))).
       { intros Hns2. destruct (HB inc m c2 W2 Hoki) as [E3 W3]. { intros E. apply Hns2. rewrite E. reflexivity. }
         rewrite E3. destruct (blk (prog_of inc) c2) as [[sg2 c3]|[s| |w]| |] eqn:R3; try solve [fail_case].
         cbn [out_state rmap result_to_res Base.bind rbind fst snd] in *. specialize (W3 sg2 c3 eq_refl).
-        destruct sg2.
+        rewrite st_flag_emb_sig.
+        destruct sg2; cbn [sig_code Z.eqb Pos.eqb] in *.
         - rewrite emb_sig_normal by exact W3. apply IH; [exact W3 | lia | lia | exact Hns2].
-        - rewrite for_loop_halted by (rewrite st_flag_emb_sig; discriminate). split; [reflexivity | apply wf_out_fin; exact W3].
-        - rewrite for_loop_halted by (rewrite st_flag_emb_sig; discriminate). split; [reflexivity | apply wf_out_fin; exact W3].
+        - rewrite clear_emb_sig by exact W3. unfold out_state. cbn [rmap result_to_res]. rewrite emb_sig_normal by exact W3.
+          split; [reflexivity | apply wf_out_fin; exact W3].
+        - rewrite clear_emb_sig by exact W3. apply IH; [exact W3 | lia | lia | exact Hns2].
         - rewrite for_loop_halted by (rewrite st_flag_emb_sig; discriminate). split; [reflexivity | apply wf_out_fin; exact W3]. }
       destruct sg; cbn [sig_code Z.eqb Pos.eqb] in *.
       + rewrite emb_sig_normal by exact W2. apply Hinc. exact Hns.
@@ -660,6 +668,7 @@ Section Level.
         split; [reflexivity | apply wf_out_fin; exact W2].
       + rewrite clear_emb_sig by exact W2. apply Hinc. exact Hns.
       + rewrite (Hhalt _ _ _ R2) by (rewrite st_flag_emb_sig; discriminate). cbn [Base.bind].
+        rewrite st_flag_emb_sig. cbn [sig_code Z.eqb Pos.eqb].
         rewrite for_loop_halted by (rewrite st_flag_emb_sig; discriminate).
         split; [reflexivity | apply wf_out_fin; exact W2].
   Qed.
